@@ -94,8 +94,8 @@ def run(ctx, facts):
     ctx.rule("V2", "deserialisers call only exported flurry functions and pass the new map's own guard")
     ctx.rule("V3", "rayon bodies delegate only to exported functions / sibling impls; guard and insert closures capture the same map")
     if "serde" in feats:
-        ctx.floors["V1"] = (4, "visit_map, visit_seq, 2 deserialize")
-        ctx.floors["V2"] = (2, "visit_map, visit_seq")
+        ctx.set_floor("V1", 4, "visit_map, visit_seq, 2 deserialize")
+        ctx.set_floor("V2", 2, "visit_map, visit_seq")
         dbs = de_bodies(facts)
         for b, rb in dbs:
             if b.name in ("expecting",):
@@ -138,7 +138,7 @@ def run(ctx, facts):
                         ok, why = guard_origin_ok(facts, b, c, len(c.args) - 1, 0)
                         ctx.inst("V2", b, "%s with own guard" % tb.name, c.span, ok, "guard from guard()/pin() of the same collection" if ok else why)
     if "rayon" in feats:
-        ctx.floors["V3"] = (8, "8 impl methods + closures in rayon_impls.rs")
+        ctx.set_floor("V3", 8, "8 impl methods + closures in rayon_impls.rs")
         rb_all = [b for b in facts.bodies if file_of(b).endswith("rayon_impls.rs")]
         for b in rb_all:
             bad = []
